@@ -893,8 +893,9 @@ def run(ctx):
             vlib.known_finding(ctx, known[0], "cfg expressions differing only in token spacing are one cfg for the DSL and two "
                                               "for a manifest: " + json.dumps(probe["status"]))
         else:
-            ctx.log("observation (not a recorded finding, does not fail the run): cfg token spacing is significant in "
-                    "manifests only:", json.dumps(probe["status"]))
+            # D19 is recorded as repaired (Cfg::new normalises the spelling): its return is a violation
+            vlib.violation(ctx, {"what": "cfg expressions that differ only in token spacing are one cfg for some front ends and two for others",
+                                 "failing_input": {"texts": probe["texts"]}, "implementation": probe["status"]})
 
     model = model_tie(ctx, exe, defs, streams, res, texts, rng, hist) if info["ok"] else {"skipped": "coq build broken", "diffs": []}
 
